@@ -83,6 +83,9 @@ def pairs_from_assembly(lines, wants):
     return out, k
 
 
+REJECTED_PROGRAMS = []       # filled by record_compiled
+
+
 def _hid_string(data):
     return '"' + ''.join('\\x%02x' % b for b in data) + '"'
 
@@ -102,7 +105,9 @@ def record_compiled(datas):
         try:
             lines = hidc_api.compile_src(src)
         except (hidc_api.Rejected, hidc_api.Crashed) as e:
-            raise common.Machinery('cannot compile the string-literal program: %s' % e)
+            # a program that only writes string literals spelled with \\xHH escapes is valid: the caller reports it
+            REJECTED_PROGRAMS.append({'source': src, 'error': '%s: %s' % (type(e).__name__, e), 'bytes': [list(d) for d in part]})
+            continue
         ps, k = pairs_from_assembly(lines, part)
         if k != len(part):
             # the compiler lays strings out differently (e.g. several .ascii lines per string): the pairing by
